@@ -45,7 +45,7 @@ def main(prop, tier, only=None, do_replay=True):
     ev_groups, samples = [], []
     violations, inconclusive, known_hits = [], [], []
     tot = dict(harnesses=0, ok=0, checks=0, passed=0, covers=0, vccs=0, symex=0.0, solver=0.0, prog=0,
-               queries=0)
+               queries=0, nontrivial=0)
     for gi, g in enumerate(groups):
         if g["engine"] == "kani":
             from . import engine_a
@@ -76,11 +76,12 @@ def main(prop, tier, only=None, do_replay=True):
     ev = {
         "property_id": prop, "tier": tier, "seed": seed, "level": "model_checking",
         "coverage": {
-            "evaluations": max(tot["harnesses"], 1),
-            "distinct_nontrivial": tot["ok_nontrivial"] if "ok_nontrivial" in tot else tot["ok"],
-            "rule": "one evaluation = one solver-decided harness or obligation set (all inputs within the harness's stated bound at once); "
-                    "counted as distinct and non-trivial when it is a distinct harness/lemma that verified successfully with at least one "
-                    "non-vacuous check and all of its reachability witnesses (kani::cover / sat witnesses) satisfied",
+            "evaluations": max(tot["checks"], 1),
+            "distinct_nontrivial": tot["nontrivial"],
+            "rule": "one evaluation = one proof obligation decided by the solver for ALL inputs within its harness's / lemma's stated bound "
+                    "(a CBMC check of a Kani harness: assertion, overflow, bounds, unwinding, cover; or one engine-B obligation instance on one path / path pair); "
+                    "obligations are distinct by (harness or lemma, check id / path); an obligation counts as non-trivial when it was discharged and is not a "
+                    "check that CBMC reports as unreachable code (those are counted in 'discharged' but not here); satisfied reachability witnesses count",
             "samples": samples[:12],
             "obligations": tot["checks"], "discharged": tot["passed"],
             "harnesses_run": tot["harnesses"], "harnesses_successful": tot["ok"],
